@@ -954,7 +954,9 @@ func runC18(r *Run) error {
 	cs := &c18Cases{r: r}
 	defer cs.close()
 	if err := c18RegistryRun(r, cs); err != nil {
-		return err
+		// the translator obligation of the check reports the unparsable source; the oracles below still look
+		// for a concrete failing input on the running code
+		r.Note("registry source not parsable by the harness (" + err.Error() + "): source-vs-factory cases skipped")
 	}
 
 	// ---- scalar activations ----
@@ -1085,7 +1087,53 @@ func runC18(r *Run) error {
 		}
 		return math.NaN()
 	}()})
+	c18FactoryIndependence(r)
 	return nil
+}
+
+// c18FactoryIndependence: registrations made on a factory of the caller's own must not reach the package default
+// (the one the solvers and the readers/writers use) nor a factory created afterwards: their names, values and
+// errors for all 256 type codes are the same before and after.  Runs last: if the registry is shared, the default
+// is polluted from here on.
+func c18FactoryIndependence(r *Run) {
+	type row struct {
+		Name         string
+		NErr, SE, ME bool
+		V            uint64
+		M            string
+	}
+	capture := func(f *neatmath.NodeActivatorsFactory) []row {
+		out := make([]row, 256)
+		for code := 0; code < 256; code++ {
+			t := neatmath.NodeActivationType(code)
+			name, nerr := f.ActivationNameFromType(t)
+			v, serr := f.ActivateByType(0.5, nil, t)
+			mv, merr := f.ActivateModuleByType([]float64{1, 5, 3}, nil, t)
+			out[code] = row{name, nerr != nil, serr != nil, merr != nil, math.Float64bits(v), fmt.Sprint(c18HexList(mv))}
+		}
+		return out
+	}
+	before := capture(neatmath.NodeActivators)
+	own := neatmath.NewNodeActivatorsFactory()
+	own.Register(neatmath.TanhActivation, func(x float64, _ []float64) float64 { return 42 * x }, "MyScaledTanh")
+	own.Register(neatmath.NodeActivationType(100), func(x float64, _ []float64) float64 { return -x }, "Custom100")
+	own.RegisterModule(neatmath.MaxModuleActivation, func(_ []float64, _ []float64) []float64 { return []float64{-7} }, "MyMax")
+	in := map[string]interface{}{"kind": "factory-independence", "registered_on_own_factory": []string{"TanhActivation -> 42*x as MyScaledTanh", "type 100 as Custom100", "MaxModuleActivation -> [-7] as MyMax"}}
+	for who, f := range map[string]*neatmath.NodeActivatorsFactory{"the package default NodeActivators": neatmath.NodeActivators, "a factory created afterwards": neatmath.NewNodeActivatorsFactory()} {
+		after := capture(f)
+		for code := range after {
+			if after[code] != before[code] {
+				r.Fail(Failure{Key: fmt.Sprintf("factory-shares-registry code=%d", code),
+					What:  "registering functions on a caller's own factory changed " + who,
+					Input: in, Observed: after[code], Required: before[code]})
+				return
+			}
+		}
+	}
+	if _, err := own.ActivationTypeFromName("Custom100"); err != nil {
+		r.Fail(Failure{Key: "factory-own-registration-lost", What: "a registration on the caller's own factory is not found there", Input: in})
+	}
+	r.Hist("factory_independence", "checked")
 }
 
 // ---------------------------------------------------------------------------------------------
